@@ -60,7 +60,7 @@ func runC04(w *World, r *Report, tier string) {
 	r.Tables["O1.gate_edges"] = len(gate)
 	protected := []string{"xmpp.Session.auth", "xmpp.Session.resume", "xmpp.Session.bind", "xmpp.Session.rfc3921Session", "xmpp.Session.EnableStreamManagement"}
 	for _, k := range protected {
-		calls := w.callsIn(ns, k)
+		calls := w.callsInH(ns, k)
 		if len(calls) == 0 {
 			r.Undecided("O1", "xmpp.NewSession→"+k, w.pos(ns.Pos()), "negotiation step is not called from NewSession: the gate rule has nothing to protect (anchor moved)")
 			continue
@@ -77,7 +77,7 @@ func runC04(w *World, r *Report, tier string) {
 	}
 	// any direct write in NewSession must be behind the gate too
 	writeKeys := []string{"xmpp.Transport.Write", "fmt.Fprintf", "fmt.Fprint", "fmt.Fprintln", "io.Writer.Write", "io.WriteString", "xmpp.Client.sendWithWriter", "xmpp.Client.Send", "xmpp.Client.SendRaw", "xmpp.Client.SendIQ"}
-	for i, c := range w.callsIn(ns, writeKeys...) {
+	for i, c := range w.callsInH(ns, writeKeys...) {
 		cons := fmt.Sprintf("xmpp.NewSession→write#%d", i)
 		if path, _ := reach(entryLoc(ns), func(in ssa.Instruction) bool { return in == c.(ssa.Instruction) }, nil, gate); path != nil {
 			r.Fail("O1", cons, w.ipos(c), "direct write in NewSession reachable before the TLS gate")
@@ -87,10 +87,10 @@ func runC04(w *World, r *Report, tier string) {
 	}
 	// between the gate's IsSecure test and auth: nothing may change the flag/conn
 	mayStore := w.mayStoreClosure(fIsSecure, fConn)
-	for _, ac := range w.callsIn(ns, "xmpp.Session.auth") {
+	for _, ac := range w.callsInH(ns, "xmpp.Session.auth") {
 		// walk backwards is awkward; instead: from each IsSecure call that carries a gate edge,
 		// every call reachable before auth (not passing another IsSecure) must not be in mayStore.
-		for _, ic := range w.callsIn(ns, isSecureKeys...) {
+		for _, ic := range w.callsInH(ns, isSecureKeys...) {
 			call := ic.(*ssa.Call)
 			usedAsGate := false
 			for e := range gate {
@@ -134,7 +134,7 @@ func runC04(w *World, r *Report, tier string) {
 			}
 			// only the last IsSecure test before auth needs the no-change argument
 			laterGate := false
-			for _, ic2 := range w.callsIn(ns, isSecureKeys...) {
+			for _, ic2 := range w.callsInH(ns, isSecureKeys...) {
 				if ic2 != ic && reachable(after(call), func(in ssa.Instruction) bool { return in == ic2.(ssa.Instruction) }, nil, nil) {
 					laterGate = true
 				}
@@ -390,7 +390,7 @@ func runC04(w *World, r *Report, tier string) {
 	r.Check(okF, "O6", "xmpp.(WebsocketTransport).DoesStartTLS", w.pos(wsTLS.Pos()), "websocket transport claims STARTTLS support", "constant false")
 	wsConn := w.Func("xmpp.(*WebsocketTransport).Connect")
 	nDial := 0
-	for _, c := range w.callsIn(wsConn, "nhooyr.io/websocket.Dial") {
+	for _, c := range w.callsInH(wsConn, "nhooyr.io/websocket.Dial") {
 		nDial++
 		args := c.Common().Args
 		okD := false
@@ -420,7 +420,7 @@ func runC04(w *World, r *Report, tier string) {
 		r.Undecided("O6", "xmpp.(*WebsocketTransport).Connect→websocket.Dial", w.pos(wsConn.Pos()), "no websocket.Dial call found")
 	}
 	// the address dialled is Config.Address (the one IsSecure inspects)
-	for _, c := range w.callsIn(wsConn, "nhooyr.io/websocket.Dial") {
+	for _, c := range w.callsInH(wsConn, "nhooyr.io/websocket.Dial") {
 		args := c.Common().Args
 		r.Check(len(args) >= 2 && fieldNames(fieldPath(args[1])) == "Config.Address", "O6", "xmpp.(*WebsocketTransport).Connect→websocket.Dial#url", w.ipos(c), "the dialled URL is not Config.Address, the field IsSecure() inspects", "dials t.Config.Address")
 	}
@@ -476,7 +476,7 @@ func c04PreGateWrites(w *World, r *Report, ns *ssa.Function, gate EdgeSet) {
 	r.Anchor("xmpp.(*Client).connect")
 	// calls of connect before NewSession
 	var roots []ssa.CallInstruction
-	nsCalls := w.callsIn(connect, "xmpp.NewSession")
+	nsCalls := w.callsInH(connect, "xmpp.NewSession")
 	if len(nsCalls) != 1 {
 		r.Undecided("O2", "xmpp.(*Client).connect→NewSession", w.pos(connect.Pos()), fmt.Sprintf("expected exactly one NewSession call, found %d", len(nsCalls)))
 		return
